@@ -9,6 +9,7 @@
 mod layers;
 mod netcase;
 mod nets;
+mod random;
 mod tensors;
 mod training;
 mod util;
@@ -55,6 +56,7 @@ fn main() {
                 "arith" => tensors::record_arith(seed, tier, &mut trace, &mut rep),
                 "training" => training::record_training(seed, tier, &mut trace, &mut rep),
                 "threads" => training::record_threads(seed, tier, &mut trace, &mut rep),
+                "randomsweep" => random::sweep(&mut rep, if tier == "thorough" { 1 } else { 4099 }),
                 _ => panic!("unknown record group {}", group),
             }
             let mut out = std::io::BufWriter::new(std::fs::File::create(&args[5]).unwrap());
@@ -80,6 +82,7 @@ fn dispatch(group: &str, case: &Value, rep: &mut util::Report, rng: &mut util::R
         "validate" => training::replay_validate(case, rep, rng),
         "net" => netcase::replay_net(case, rep),
         "flow" => netcase::replay_flow(case, rep),
+        "random" => random::replay_random(case, rep),
         _ => panic!("unknown group {}", group),
     }
 }
